@@ -39,6 +39,7 @@ ESSENTIAL_LABELS = {t: ["answered", "rule2-evaluated", "rule2-applied", "rejecte
 REGION_F22 = "idcstar_normaliser_sums_non_outcome_name"
 REGION_F25 = "idcstar_rule2_ignores_other_conditions"
 REGION_F24 = "outcome_and_condition_share_a_base_variable"
+REGION_F32 = "idcstar_merge_justified_by_an_outcome_value"
 
 
 @st.composite
@@ -141,8 +142,25 @@ def check(case, ignore_regions=False) -> Outcome:
         region = None
     if region is None and not ignore_regions and REGION_F24 in open_regions(ID) and {it["v"] for it in outs} & {it["v"] for it in conds}:
         region = REGION_F24
-    id_results, idc_args, rule2 = [], [], []
-    with CallTrace(idc, ["id_star", "idc_star", "cf_rule_2_of_do_calculus_applies", "make_counterfactual_graph"]) as tr:
+    id_results, idc_args, rule2, f32 = [], [], [], []
+    cgm = importlib.import_module("y0.algorithm.identify.cg")
+    outcome_names = {it["v"] for it in outs}
+
+    def on_same_value(a, k, r):
+        # F32 call-site predicate: Lemma 24 declared two different nodes equal because one of them is OBSERVED, by an
+        # outcome item, at the value the other one is set to -- an equality that holds given the outcomes, not given
+        # the conditions alone
+        try:
+            ev_, n1, n2 = a[1], a[2], a[3]
+            if r and n1 != n2 and (n1 in ev_) != (n2 in ev_):
+                seen_node = n1 if n1 in ev_ else n2
+                if seen_node.name in outcome_names:
+                    f32.append(True)
+        except Exception:
+            pass
+
+    with CallTrace(cgm, ["nodes_attain_same_value"]) as trcg, CallTrace(idc, ["id_star", "idc_star", "cf_rule_2_of_do_calculus_applies", "make_counterfactual_graph"]) as tr:
+        trcg.observe("nodes_attain_same_value", on_same_value)
         tr.observe("id_star", lambda a, k, r: id_results.append(r))
         def on_rule2(a, k, r):
             cf_graph, outs_, cond_ = a[0], list(a[1]), a[2]
@@ -225,6 +243,9 @@ def check(case, ignore_regions=False) -> Outcome:
             return out
     if not ignore_regions and REGION_F25 in open_regions(ID) and f25:
         out.excluded = REGION_F25
+        return out
+    if not ignore_regions and REGION_F32 in open_regions(ID) and f32:
+        out.excluded = REGION_F32
         return out
     labels.add("zero" if isinstance(est, Zero) else "answered")
     if isinstance(est, Fraction):
